@@ -696,6 +696,13 @@ def run(repo, rep):
              'commutative operations (no last-writer-wins table keyed by '
              'name)')
     check_registration_commutes(repo, rep)
+    rep.rule('R06g', 'ORDER-SITUATIONS: choose_overload evaluated '
+             'abstractly gives the same outcome for every order in which a '
+             'layer enumerates its candidates (648 situations, every '
+             'permutation of layers of two and three)')
+    resmodel.report_situations(repo, rep, 'R06g', (
+        'order-independent', 'outcome'),
+        'the outcome of overload choice depends on enumeration order')
     # two clauses other properties decide, which are order clauses too: a
     # merged layer is the *union* of what its members offer (no "first
     # member wins"), and registering a definition in one context does not
